@@ -1,0 +1,5 @@
+//go:build !verif
+
+package shrex
+
+// Verification accessors live in verif_on.go (build tag `verif`); nothing is needed without the tag.
